@@ -235,6 +235,10 @@ pub struct RotCase<T: Fl> {
     pub p: [T; 4],
     pub v: [T; 3],
     pub pt: [T; 3],
+    /// ||q|^2 - 1| and ||p|^2 - 1|: the quaternions are unit only to rounding; this input defect propagates exactly
+    /// (from_quat(q) = R + e (R - I), q * v = (1 + e) R v) and is part of every tolerance below
+    pub eq: f64,
+    pub ep: f64,
 }
 
 /// words: q[4] p[4] v[3] point[3] as bit patterns of T. The quaternions must be unit to within rounding.
@@ -247,9 +251,12 @@ pub fn decode_rot<T: Fl>(w: &[u64], t: &mut Tally, variant: &'static str) -> Opt
     let g4 = |i: usize| [T::fb(w[i]), T::fb(w[i + 1]), T::fb(w[i + 2]), T::fb(w[i + 3])];
     let g3 = |i: usize| [T::fb(w[i]), T::fb(w[i + 1]), T::fb(w[i + 2])];
     let (q, p, v, pt) = (g4(0), g4(4), g3(8), g3(11));
-    for qq in [&q, &p] {
-        let n2: f64 = qq.iter().map(|x| x.f() * x.f()).sum();
-        if !((n2 - 1.0).abs() <= 8.0 * T::U) {
+    let mut eps = [0.0f64; 2];
+    for (k, qq) in [&q, &p].iter().enumerate() {
+        let s = qs::<T>(qq);
+        let n2 = s[0] * s[0] + s[1] * s[1] + s[2] * s[2] + s[3] * s[3];
+        eps[k] = (n2 - T::S::one()).f().abs();
+        if !(eps[k] <= 8.0 * T::U) {
             t.class("out-of-domain:not-unit");
             return None;
         }
@@ -284,7 +291,7 @@ pub fn decode_rot<T: Fl>(w: &[u64], t: &mut Tally, variant: &'static str) -> Opt
                             "branch": br, "threshold_distance": dist, "angle": angle, "words": hexwords(&w[..ROT_WORDS])}));
         }
     }
-    Some(RotCase { q, p, v, pt })
+    Some(RotCase { q, p, v, pt, eq: eps[0], ep: eps[1] })
 }
 
 pub fn rot_strategy<T: Fl>() -> BoxedStrategy<Vec<u64>> {
@@ -312,26 +319,33 @@ pub fn m3_t<S: Sc>(a: &M3<S>) -> M3<S> {
     M3([a.row(0), a.row(1), a.row(2)])
 }
 
-/// entries of a 3x3 result against a reference rotation, absolute tolerance `lossy * K * u`
-pub fn rot_entries<T: Fl>(cx: &mut Cx, key: &str, op: &str, got: &[T; 9], want: &M3<T::S>, lossy: f64, ctx: &dyn Fn() -> String) -> Result<(), Fail> {
+/// budget of `lossy` quaternion <-> matrix steps: K u of rounding each, plus the exact propagation of the input defect `eps`
+/// (at most 2 eps through from_quat, eps through the action, <= 3 eps growth through a matrix -> quaternion step: 4 eps per step)
+#[inline]
+pub fn rot_tol<T: Fl>(lossy: f64, eps: f64) -> f64 {
+    lossy * (K * T::U + 4.0 * eps)
+}
+
+/// entries of a 3x3 result against a reference rotation, absolute tolerance `rot_tol(lossy, eps)`
+pub fn rot_entries<T: Fl>(cx: &mut Cx, key: &str, op: &str, got: &[T; 9], want: &M3<T::S>, lossy: f64, eps: f64, ctx: &dyn Fn() -> String) -> Result<(), Fail> {
     let g = m3_from(got);
     for j in 0..3 {
         for i in 0..3 {
             let e = (g.0[j].0[i] - want.0[j].0[i]).f().abs();
-            cx.within(key, op, e, lossy * K * T::U, &|| format!("entry [col {j}][row {i}] = {:?}, want {:e}; {}", got[3 * j + i], want.0[j].0[i].f(), ctx()))?;
+            cx.within(key, op, e, rot_tol::<T>(lossy, eps), &|| format!("entry [col {j}][row {i}] = {:?}, want {:e}; {}", got[3 * j + i], want.0[j].0[i].f(), ctx()))?;
         }
     }
     Ok(())
 }
 
 /// image of a vector under a converted rotation against R v; `lossy` edges at K u |v| plus the action's own rounding
-pub fn rot_action<T: Fl>(cx: &mut Cx, op: &str, got: &[T; 3], r: &M3<T::S>, v: &[T; 3], lossy: f64, ctx: &dyn Fn() -> String) -> Result<(), Fail> {
+pub fn rot_action<T: Fl>(cx: &mut Cx, op: &str, got: &[T; 3], r: &M3<T::S>, v: &[T; 3], lossy: f64, eps: f64, ctx: &dyn Fn() -> String) -> Result<(), Fail> {
     let vv = v3_from(v);
     let want = r.mulv(vv);
     let s = r.absmulv(vv);
     let nv = norm2(&[v[0].f(), v[1].f(), v[2].f()]);
     for i in 0..3 {
-        let tol = lossy * K * T::U * nv + KX * T::U * s.0[i].f();
+        let tol = rot_tol::<T>(lossy, eps) * nv + KX * T::U * s.0[i].f();
         let e = (got[i].s() - want.0[i]).f().abs();
         cx.within("rot/action", op, e, tol, &|| format!("lane {i}: got {:?}, want {:e}; v={} {}", got[i], want.0[i].f(), hexs(v), ctx()))?;
     }
@@ -339,11 +353,11 @@ pub fn rot_action<T: Fl>(cx: &mut Cx, op: &str, got: &[T; 3], r: &M3<T::S>, v: &
 }
 
 /// a quaternion recovered from a matrix against the original: unit, same rotation (|q.q'| >= 1 - K u and component-wise after sign alignment)
-pub fn quat_same<T: Fl>(cx: &mut Cx, op: &str, got: &[T; 4], orig: &[T; 4], lossy: f64, ctx: &dyn Fn() -> String) -> Result<(), Fail> {
+pub fn quat_same<T: Fl>(cx: &mut Cx, op: &str, got: &[T; 4], orig: &[T; 4], lossy: f64, eps: f64, ctx: &dyn Fn() -> String) -> Result<(), Fail> {
     let g = qs(got);
     let o = qs(orig);
     let n2 = g[0] * g[0] + g[1] * g[1] + g[2] * g[2] + g[3] * g[3];
-    cx.within("rot/roundtrip-unit", op, (n2 - T::S::one()).f().abs(), lossy * K * T::U, &|| format!("|q'|^2 - 1; q'={} {}", hexs(got), ctx()))?;
+    cx.within("rot/roundtrip-unit", op, (n2 - T::S::one()).f().abs(), rot_tol::<T>(lossy, eps), &|| format!("|q'|^2 - 1; q'={} {}", hexs(got), ctx()))?;
     let no = (o[0] * o[0] + o[1] * o[1] + o[2] * o[2] + o[3] * o[3]).sqrt();
     let ng = n2.sqrt();
     let dot = (g[0] * o[0] + g[1] * o[1] + g[2] * o[2] + g[3] * o[3]) / (no * ng);
@@ -352,7 +366,7 @@ pub fn quat_same<T: Fl>(cx: &mut Cx, op: &str, got: &[T; 4], orig: &[T; 4], loss
     let sg = if dot.f() < 0.0 { -1.0 } else { 1.0 };
     for i in 0..4 {
         let e = (g[i] / ng - T::S::of(sg) * o[i] / no).f().abs();
-        cx.within("rot/roundtrip-components", op, e, lossy * K * T::U, &|| format!("component {i} of q' = {:?} differs from +-q; q'={} {}", got[i], hexs(got), ctx()))?;
+        cx.within("rot/roundtrip-components", op, e, rot_tol::<T>(lossy, eps), &|| format!("component {i} of q' = {:?} differs from +-q; q'={} {}", got[i], hexs(got), ctx()))?;
     }
     Ok(())
 }
@@ -391,6 +405,9 @@ pub struct RS<const N: usize> {
     /// accumulated absolute budget (multiplies |v|; only quaternion edges, i.e. ||M|| = 1)
     pub abs: f64,
     pub lossy_edges: u32,
+    /// how far the start object is from an exact rotation (||q|^2 - 1| of a quaternion, max |L^T L - I| of a pure-rotation
+    /// matrix); it is an input defect that every quaternion <-> matrix edge and the quaternion action see again
+    pub defect: f64,
 }
 
 impl<const N: usize> RS<N> {
@@ -400,7 +417,23 @@ impl<const N: usize> RS<N> {
         for (j, i, x) in comps {
             m.0[*j][*i] = Q::of(*x);
         }
-        RS { m, pure_rot, exact: true, rel: 0.0, abs: 0.0, lossy_edges: 0 }
+        let mut defect = 0.0f64;
+        if pure_rot {
+            let d = N - 1;
+            for a in 0..d {
+                for b in a..d {
+                    let mut s = Q::zero();
+                    for i in 0..d {
+                        s = s + m.0[a][i] * m.0[b][i];
+                    }
+                    if a == b {
+                        s = s - Q::one();
+                    }
+                    defect = defect.max(s.f().abs());
+                }
+            }
+        }
+        RS { m, pure_rot, exact: true, rel: 0.0, abs: 0.0, lossy_edges: 0, defect }
     }
     pub fn step(&mut self, k: EK, u_to: f64) {
         let drop_t = |m: &mut H<Q, N>| {
@@ -422,6 +455,8 @@ impl<const N: usize> RS<N> {
                 if !representable {
                     self.exact = false;
                     self.lossy_edges += 1;
+                    // rounding every entry of a rotation by u32 moves its columns' dot products by <= 2 u32
+                    self.defect += 2.0 * U32;
                 }
                 self.rel += 2.0 * U32;
             }
@@ -429,32 +464,20 @@ impl<const N: usize> RS<N> {
                 drop_t(&mut self.m);
                 self.exact = false;
                 self.lossy_edges += 1;
-                // the matrix handed to from_rotation_axes is a rotation only to within its orthonormality defect
-                // (e.g. an f32-rounded rotation widened to f64): the extracted quaternion can represent it no better
-                let d = N - 1;
-                let mut defect = 0.0f64;
-                for a in 0..d {
-                    for b in a..d {
-                        let mut s = Q::zero();
-                        for i in 0..d {
-                            s = s + self.m.0[a][i] * self.m.0[b][i];
-                        }
-                        if a == b {
-                            s = s - Q::one();
-                        }
-                        defect = defect.max(s.f().abs());
-                    }
-                }
-                self.abs += K * (u_to + defect);
+                // the matrix handed to from_rotation_axes is a rotation only to within `defect` (an f32-rounded rotation widened
+                // to f64, or the matrix of a quaternion whose norm is 1 only to rounding): the result can represent it no better
+                self.abs += K * (u_to + self.defect);
             }
             EK::FromQuat => {
                 self.exact = false;
                 self.lossy_edges += 1;
-                self.abs += K * u_to;
+                // from_quat of a quaternion with |q|^2 = 1 + e is R + e (R - I)
+                self.abs += K * (u_to + self.defect);
             }
             EK::QCast => {
                 self.exact = false;
                 self.lossy_edges += 1;
+                self.defect += 2.0 * U32;
                 self.abs += 4.0 * U32;
             }
         }
@@ -462,12 +485,12 @@ impl<const N: usize> RS<N> {
 }
 
 impl RS<4> {
-    /// a quaternion as the start object: its exact rotation; the distance of |q|^2 from 1 enters the absolute budget
+    /// a quaternion as the start object: its exact rotation; the distance of |q|^2 from 1 is the input defect
     pub fn from_quat(q: [f64; 4]) -> Self {
         let qq = [Q::of(q[0]), Q::of(q[1]), Q::of(q[2]), Q::of(q[3])];
         let n2 = qq[0] * qq[0] + qq[1] * qq[1] + qq[2] * qq[2] + qq[3] * qq[3];
         let eps = (n2 - Q::one()).f().abs();
-        RS { m: h4_from_quat(qq), pure_rot: true, exact: false, rel: 0.0, abs: 2.0 * eps, lossy_edges: 0 }
+        RS { m: h4_from_quat(qq), pure_rot: true, exact: false, rel: 0.0, abs: 0.0, lossy_edges: 0, defect: eps }
     }
 }
 
@@ -504,7 +527,7 @@ pub fn end_check<const N: usize>(
     let (ev, sv) = r.m.mulv(&vh);
     let (ep, sp) = r.m.mulv(&ph);
     let rel = r.rel + if end_is_quat { 0.0 } else { KX * u_end };
-    let abs = r.abs + if end_is_quat { K * u_end } else { 0.0 };
+    let abs = r.abs + if end_is_quat { K * (u_end + r.defect) } else { 0.0 };
     let (nv, np) = (norm2(&v[..d]), norm2(&p[..d]));
     for i in 0..d {
         let e = (Q::of(dir[i]) - ev[i]).f().abs();
